@@ -18,7 +18,8 @@ def _lines_for(w):
     return [frow([]), frow([[a, PLAIN]]), frow([[a, RED]]), frow([[[98] * w, RED]]), frow([[[99] * w, PLAIN]]),
             frow([[a, PLAIN], [[100] * (w - 1), ONBLUE]]) if w > 1 else frow([[a, ONBLUE]]), srow("e"), frow([[[], RED]]),
             frow([[[102] * max(1, w - 1), PLAIN]]),
-            frow([[a, PLAIN], [[32] * max(1, w - 1), UNDER]]), frow([[[32] * w, ONBLUE]]), frow([[[32] * max(1, w - 1), INVERT]])]
+            frow([[a, PLAIN], [[32] * max(1, w - 1), UNDER]]), frow([[[32] * w, ONBLUE]]), frow([[[32] * max(1, w - 1), INVERT]]),
+            srow(" " * max(1, w - 1))]
 
 
 class C07(TraceCheck):
@@ -26,7 +27,7 @@ class C07(TraceCheck):
     module = "CursorTrace"
     rule = ("histories of a real CursorAwareWindow (pty in_stream, capture out_stream): k in 0..H+2 pre-existing lines (cursor "
             "ends on any row), enter (cursor report answered by the harness and cross-checked by the reference terminal), "
-            "1..6 renders with arrays of height 0..H+3 from 9 representative rows per width (empty, short, full-width, two "
+            "(in part of the histories the cursor is then moved back up into that output, so rows at and below the window's first row hold old text), 1..6 renders with arrays of height 0..H+3 from 9 representative rows per width (empty, short, full-width, two "
             "runs, plain str), cursor on any array cell, keep_last_line/hide_cursor on and off, exit; terminals 2x2..5x6; "
             "sources: TLC-generated behaviours (MC_CursorWin GenSpec) + bounded enumeration of (k, array, array) on 2x2/3x2 + "
             "seeded random histories. distinct_nontrivial = distinct (top row, array height, terminal height, scrolled?, "
@@ -74,7 +75,7 @@ class C07(TraceCheck):
                 for A in arrays:
                     for B in arrays:
                         n += 1
-                        yield {"h": h, "w": w, "hide": n % 2, "keep": (n // 2) % 2, "pre": pre,
+                        yield {"h": h, "w": w, "hide": n % 2, "keep": (n // 2) % 2, "pre": pre, "up": (n // 3) % 3 if n % 4 == 0 else 0,
                                "steps": [{"arr": A, "cp": [max(0, len(A) - 1), 0], "kind": "list"},
                                          {"arr": B, "cp": [0, 0], "kind": "fsarray" if n % 5 == 0 else "list"}]}
         # REPL-like growth: every render shows the previous array plus a few more lines (so earlier rows are row-cache
@@ -106,7 +107,8 @@ class C07(TraceCheck):
                 else:
                     cp = [0, 0]
                 steps.append({"arr": arr, "cp": cp, "kind": "fsarray" if rng.random() < 0.25 else "list"})
-            yield {"h": h, "w": w, "hide": k % 2, "keep": (k // 2) % 2, "pre": rng.randrange(0, h + 3), "steps": steps}
+            yield {"h": h, "w": w, "hide": k % 2, "keep": (k // 2) % 2, "pre": rng.randrange(0, h + 3),
+                   "up": rng.choice([0, 0, 1, 2, h]), "steps": steps}
 
     def run_history(self, hist):
         from curtsies.window import CursorAwareWindow
@@ -115,8 +117,10 @@ class C07(TraceCheck):
         try:
             ev = []
             pre = hist["pre"]
-            ev.append({"k": "setup", "toks": enc.lex("p\r\n" * pre)})
-            out.pos = (min(pre, h - 1), 0)
+            row = min(pre, h - 1)
+            up = min(hist.get("up", 0), row)       # the cursor was moved back up into the existing output
+            ev.append({"k": "setup", "toks": enc.lex("p\r\n" * pre + ("\x1b[%dA" % up if up else ""))})
+            out.pos = (row - up, 0)
             win = CursorAwareWindow(out_stream=out, in_stream=out.in_stream, keep_last_line=bool(hist.get("keep")),
                                     hide_cursor=bool(hist["hide"]))
             win.__enter__()
